@@ -5,7 +5,7 @@
    on the model inside Coq. *)
 From Coq Require Import List Arith Permutation.
 Import ListNotations.
-From LSF Require Import Join JoinProofs JoinCaught JoinCaughtProofs.
+From LSF Require Import Join JoinProofs JoinCaught JoinCaughtProofs LaunchProofs.
 
 (* whatever order the branches finish in, slot i holds the output of branch i *)
 Theorem C05_order_independent : forall (A : Type) (vs : list A) (d : A) (order : list nat),
@@ -61,6 +61,14 @@ Theorem C05_joins_are_complete : forall (A : Type) (evs : list (bev A)) r res,
   In (CJoin res) (snd (crun r evs)) -> length res = length r.
 Proof. exact @joins_are_complete. Qed.
 
+(* what has been launched: in every reachable state, for every completion order, the iterations launched so far are exactly those below the
+   end of the latest block, and every slot from there on is still empty - those iterations do not exist yet *)
+Theorem C05_launched_is_prefix : forall (A : Type) mc n (l : list (nat * A)) s,
+  jrun mc (jinit mc n) l = Some s ->
+  launched s = seq 0 (batch_end mc n (jstart s)) /\
+  (forall j, batch_end mc n (jstart s) <= j -> j < n -> nth_error (res s) j = Some None).
+Proof. exact @launched_is_prefix. Qed.
+
 (* a run of 5 items with MaxConcurrency 2 finishing out of order *)
 Example C05_example :
   exists s, jrun 2 (jinit 2 5) [(1, 11); (0, 10); (3, 13); (2, 12); (4, 14)] = Some s /\ somes (res s) = [10; 11; 12; 13; 14] /\ launched s = [0; 1; 2; 3; 4].
@@ -76,3 +84,4 @@ Print Assumptions C05_inflight_bounded.
 Print Assumptions C05_join_only_when_all_done.
 Print Assumptions C05_caught_slot_blocks_join.
 Print Assumptions C05_joins_are_complete.
+Print Assumptions C05_launched_is_prefix.
